@@ -2,7 +2,7 @@
    [vm_compute] evaluation inside coqc run exactly the same function.
    A case is a list of numbers; the first is the case kind. *)
 From Coq Require Import NArith List Bool.
-From PDB Require Import Model.IndexPage Model.Pipeline Model.Meta Model.Migrate.
+From PDB Require Import Gen.Consts Model.IndexPage Model.Pipeline Model.Meta Model.Migrate Model.ValueTable.
 Import ListNotations.
 Open Scope N_scope.
 
@@ -177,12 +177,52 @@ Definition run_c20 (l : list N) : list N :=
   | _ => err_marker
   end.
 
+(* ---- kind 6: value tables ---- *)
+Definition pad_to (n : nat) (bs : list N) : list N := bs ++ repeat 0 (n - length bs)%nat.
+Definition rc_prefix (rcd : bool) : list N := if rcd then le_encode 4 1 else [].
+(* sub 1: rc keytail[26] value...  -> tier, entry size, image of the table file: header slot and the chain *)
+Definition c06_insert (rcd : bool) (tail value : list N) : list N :=
+  let len := N.of_nat (length value) in
+  let t := select_tier rcd true len in
+  let es := tier_entry_size t in
+  let prefix := rc_prefix rcd ++ tail in
+  let n := if t =? N.of_nat (length column_sizes)
+           then parts_needed (S (length value)) es (N.of_nat (length prefix)) len else 1%nat in
+  let ws := write_chain (S (S (length value))) es true false prefix value (map N.of_nat (seq 1 (S n))) in
+  let header := pad_to (N.to_nat es) (le_encode 8 0 ++ le_encode 8 (N.of_nat (S n))) in
+  t :: es :: header ++ flat_map (fun w => pad_to (N.to_nat es) (encode_slot (snd w))) ws.
+(* sub 2: accounting: rc nkeys nsteps (op key len)* -> per key 1 present / 2 absent, then (tier, live slots)* *)
+Fixpoint c06_steps (n : nat) (l : list N) (st : list (N * N)) : list (N * N) :=
+  match n, l with
+  | S n', o :: k :: len :: rest =>
+      let st' := filter (fun e => negb (fst e =? k)) st in
+      c06_steps n' rest (if o =? 0 then (k, len) :: st' else st')
+  | _, _ => st
+  end.
+Definition c06_account (rcd : bool) (nkeys : nat) (st : list (N * N)) : list N :=
+  let present := map (fun k => if existsb (fun e => fst e =? N.of_nat k) st then 1 else 2) (seq 0 nkeys) in
+  let slots := map (fun e => let t := select_tier rcd true (snd e) in
+                             (t, if t =? N.of_nat (length column_sizes)
+                                 then N.of_nat (parts_needed (S (N.to_nat (snd e))) (tier_entry_size t) (prefix_size rcd true) (snd e))
+                                 else 1)) st in
+  let tiers := seq 0 256 in
+  present ++ flat_map (fun t => let n := fold_left (fun a e => if fst e =? N.of_nat t then a + snd e else a) slots 0 in
+                                if n =? 0 then [] else [N.of_nat t; n]) tiers.
+Definition run_c06 (l : list N) : list N :=
+  match l with
+  | 1 :: rc :: rest => c06_insert (negb (rc =? 0)) (firstn 26 rest) (skipn 26 rest)
+  | 2 :: rc :: nkeys :: nsteps :: rest =>
+      c06_account (negb (rc =? 0)) (N.to_nat nkeys) (c06_steps (N.to_nat nsteps) rest [])
+  | _ => err_marker
+  end.
+
 Definition dispatch (l : list N) : list N :=
   match l with
   | 19 :: rest => run_c19 rest
   | 1 :: rest => run_hist rest
   | 17 :: rest => run_c17 rest
   | 9 :: rest => run_c09 rest
+  | 6 :: rest => run_c06 rest
   | 20 :: rest => run_c20 rest
   | _ => err_marker
   end.
